@@ -194,7 +194,7 @@ def _check_more(ctx, extra, data, applied, tag):
         ctx.label("used-in-basis-context")
 
 
-def _jit(ctx, make, data, case, tag):
+def _jit(ctx, make, data, case, tag, lab=None):
     """k calls of calculate_next equal calculate()[k]"""
     from quantarhei.qm import EvolutionSuperOperator
     nt = data.shape[0]
@@ -210,10 +210,19 @@ def _jit(ctx, make, data, case, tag):
             eso.calculate_next(save=save)
             d = numpy.array(eso.data)
             out.append(d.copy())
-        return out
-    ok, out = guarded(ctx, "stepwise", run, tag + ("/save" if save else "/nosave"))
+        conv = None
+        if save and lab is not None:
+            # the stored step-by-step result converted back from the rotating frame, like the all-at-once one
+            eso.convert_from_RWA()
+            conv = numpy.array(eso.data)
+        return out, conv
+    ok, oc = guarded(ctx, "stepwise", run, tag + ("/save" if save else "/nosave"))
     if not ok:
         return
+    out, conv = oc
+    if conv is not None:
+        ctx.close("stepwise-equals-all", conv[:k + 1], lab[:k + 1], rtol=1e-10,
+                  scale=max(1.0, float(numpy.max(numpy.abs(lab)))), where=tag + "/save/converted-from-rwa", step=k)
     scale = max(1.0, float(numpy.max(numpy.abs(data))))
     for step, d in enumerate(out, start=1):
         if save:
@@ -338,7 +347,7 @@ def _check_lind(case, ctx):
             worst = max(worst, float(numpy.linalg.norm(numpy.tensordot(lab[i], rho0) - numpy.tensordot(Ue, rho0))))
         ctx.bound("rwa-conversion/equals-lab-exponential", worst,
                   bound + 1e-13 * float(numpy.linalg.norm(H, 2)) * abs(step) * (nt + abs(k0)), where=tag)
-    _jit(ctx, make, data, case, tag)
+    _jit(ctx, make, data, case, tag, lab=lab)
     if case.get("pdeph"):
         # with pure dephasing the superoperator and the direct propagation use the same splitting; they have to agree
         # (no exact exponential is claimed here: dephasing rates and generator need not commute)
